@@ -528,7 +528,8 @@ Section ValidEval.
           [|pose proof (fun local => bind_params_valid args0 0 args acc local Hargs Hacc) as Hloc;
             destruct (bind_params args0 0 args acc) as [local|]; [|congruence]] end.
         { apply vf_app. split.
-          - destruct (lookup fr "inputs") eqn:E; [|reflexivity].
+          - destruct (lookup_frame scope "inputs"); [reflexivity|].  (* F9 repaired *)
+            destruct (lookup fr "inputs") eqn:E; [|reflexivity].
             apply vf_cons. split; [eapply lookup_valid; eauto|reflexivity].
           - destruct (lam_name st id); [|reflexivity].
             destruct (lookup_frame scope s); [reflexivity|]. apply vf_cons. split; [exact Hthis|reflexivity]. }
